@@ -115,26 +115,29 @@ def run_rules(ctx, chk):
     visited = set()
     for p in r.paths:
         for fid, path, bb in p.state.trace:
-            if fid == 0:
-                visited.add(bb)
-    b = r.body
+            visited.add((path, bb))
     n_ok_sites = n_err_sites = 0
-    for i, blk in enumerate(b.blocks):
-        if blk['cleanup']:
+    for b in [r.body] + [r.fb.body(x) for x in sorted(r.engine.inlined) if r.fb.body(x) is not None]:
+        ret_ty = b.crate.tystr(b.locals[0]['ty'])
+        if not ret_ty.startswith('std::result::Result'):
             continue
-        for s_ in blk['stmts']:
-            if s_['k'] == 'assign' and s_['p']['l'] == 0 and not s_['p']['proj'] and s_['r']['k'] == 'agg':
-                vn = s_['r'].get('vname')
-                if vn == 'Ok':
-                    n_ok_sites += 1
-                    chk.ob('C03.G3', 'ok-exit-explored', i in visited, b.where(i),
-                           'an Ok(..) exit at %s is %s' % (b.where(i), 'covered by the guard table' if i in visited else
-                                                            'NOT reachable within one loop iteration: an Ok exit after the retry loop '
-                                                            'serves data without any of the documented guards'))
-                elif vn == 'Err':
-                    n_err_sites += 1
-    chk.ob('C03.G3', 'exits:ok-or-err-only', n_ok_sites >= 2 and n_err_sites >= 1, b.where(0),
-           '%d Ok exit sites, %d Err exit sites' % (n_ok_sites, n_err_sites), nontrivial=False)
+        for i, blk in enumerate(b.blocks):
+            if blk['cleanup']:
+                continue
+            for s_ in blk['stmts']:
+                if s_['k'] == 'assign' and s_['p']['l'] == 0 and not s_['p']['proj'] and s_['r']['k'] == 'agg':
+                    vn = s_['r'].get('vname')
+                    if vn == 'Ok':
+                        n_ok_sites += 1
+                        seen_it = (b.path, i) in visited
+                        chk.ob('C03.G3', 'ok-exit-explored', seen_it, b.where(i),
+                               'an Ok(..) exit at %s is %s' % (b.where(i), 'covered by the guard table' if seen_it else
+                                                                'NOT reachable within one loop iteration: an Ok exit after the retry loop '
+                                                                'serves data without any of the documented guards'))
+                    elif vn == 'Err':
+                        n_err_sites += 1
+    chk.ob('C03.G3', 'exits:ok-or-err-only', n_ok_sites >= 2 and n_err_sites >= 1, r.body.where(0),
+           '%d Ok exit sites, %d Err exit sites (snapshot and the helpers it inlines)' % (n_ok_sites, n_err_sites), nontrivial=False)
     from .. import core as _core
     if not isinstance(ctx, _core.FixtureCtx) and not getattr(chk, '_nested', False):
         from . import C11
